@@ -33,7 +33,7 @@ MANIFEST = {
     'text': 'Every combination of max_body_size, max_memfile_size, body size around both limits (and far above), '
             'Content-Length / chunked framing (all listed chunk sizes; chunked with a misleading Content-Length) and '
             'content type (raw, urlencoded, JSON, multipart text / file parts) is served by the real application; '
-            'status, consumed bytes, body storage kind and delivered content are compared with the size model.',
+            'status, consumed bytes, body storage kind and delivered content are compared with the size model. Parts with an empty file name may be classified either way, but request.forms never holds more text than the threshold.',
     'note': 'Bounds: limits {None,0,5,10}, thresholds {1,4,8,100} (multipart 64/100), sizes 0..limit+threshold+3 and 1000; '
             '<=1 short read per execution + byte-at-a-time. Trusted: CPython, reference multipart/chunked encoders.',
 }
